@@ -56,6 +56,13 @@ func (ex *Exec) callSiteClauses(fr *Frame, calleeName string, nth int) []*CallCl
 	} else {
 		c = ex.prog.contractFor(fr.fn)
 	}
+	if c == nil && fr.inline {
+		// a closure without a contract of its own, executed as part of its enclosing
+		// function: the call clauses of that function's contract cover it as well
+		for p := fr.fn.Parent(); p != nil && c == nil; p = p.Parent() {
+			c = ex.prog.contractFor(p)
+		}
+	}
 	if c == nil {
 		return nil
 	}
